@@ -2,6 +2,9 @@ use crate::cell::Cell;
 use crate::pen::Pen;
 use std::ops::{Index, Range, RangeFull};
 
+#[cfg(feature = "verif")]
+mod verif;
+
 #[derive(Clone, PartialEq)]
 pub struct Line {
     pub(crate) cells: Vec<Cell>,
